@@ -239,8 +239,41 @@ func normalizeSpace(s string) string { return strings.Join(strings.Fields(s), " 
 // failure classes used as known-finding keys
 const (
 	clsGoBuild = "a //go:build (or // +build) line inside the rendered body is hoisted above the header comment"
+	clsAlign   = "a second gofmt pass only changes the alignment (spaces and tabs inside lines) of one-line declarations next to a declaration with interspersed comments (go/printer is not idempotent here)"
 	clsVarJoin = "a second gofumpt pass only regroups adjacent var declarations or inserts an empty line between adjacent declaration groups (gofumpt is not idempotent here)"
 )
+
+// sameUpToInlineSpace: the same lines once runs of spaces and tabs inside a line are collapsed
+func sameUpToInlineSpace(a, b string) bool {
+	la, lb := strings.Split(a, "\n"), strings.Split(b, "\n")
+	if len(la) != len(lb) {
+		return false
+	}
+	for i := range la {
+		if normalizeSpace(la[i]) != normalizeSpace(lb[i]) {
+			return false
+		}
+		if la[i] == lb[i] {
+			continue
+		}
+		// only the recorded shape: a differing line is a one-line func declaration in a run of adjacent
+		// one-line func declarations of which one carries a block comment
+		if !strings.HasPrefix(la[i], "func ") {
+			return false
+		}
+		commented := false
+		for j := i; j >= 0 && strings.HasPrefix(la[j], "func "); j-- {
+			commented = commented || strings.Contains(la[j], "/*")
+		}
+		for j := i; j < len(la) && strings.HasPrefix(la[j], "func "); j++ {
+			commented = commented || strings.Contains(la[j], "/*")
+		}
+		if !commented {
+			return false
+		}
+	}
+	return true
+}
 
 type fmtVerdict struct{ class, msg string }
 
@@ -307,7 +340,11 @@ func (c *fmtCase) judge() fmtVerdict {
 	}
 	// fixed points
 	if g, err := format.Source([]byte(txt)); err != nil || string(g) != txt {
-		return fmtVerdict{"", "the file is not a fixed point of gofmt"}
+		cls := ""
+		if err == nil && sameUpToInlineSpace(txt, string(g)) {
+			cls = clsAlign
+		}
+		return fmtVerdict{cls, "the file is not a fixed point of gofmt:\n" + firstDiff(txt, string(g))}
 	}
 	g2, err := gformat.Source([]byte(txt), gformat.Options{LangVersion: "go" + c.goVersion(), ModulePath: c.modPath()})
 	if err != nil {
@@ -421,7 +458,7 @@ func genBodyItems(r *Rng, mod, self string, id *int) []PItem {
 	for i := 0; i < n; i++ {
 		*id++
 		k := *id
-		switch r.Intn(16) {
+		switch r.Intn(20) {
 		case 0:
 			items = append(items, PItem{K: "block", S: fmt.Sprintf("func F%d() {}\n", k)})
 		case 1:
@@ -456,6 +493,33 @@ func genBodyItems(r *Rng, mod, self string, id *int) []PItem {
 			} else {
 				items = append(items, PItem{K: "block", S: fmt.Sprintf("var W%d int\n", k)})
 			}
+		case 16:
+			// literals gofmt spells canonically (prefix and exponent letters, octal-looking imaginaries) and, from go 1.13 on, gofumpt's 0o octals
+			lit := Pick(r, []string{"0XFF00", "0B101", "0O17", "1E6", "0X1P-2", "0777i", "0x1p-2", "0Xabc", "1_000E3", "017", "0o17", "1e6", "0b1"})
+			items = append(items, PItem{K: "block", S: fmt.Sprintf("const N%d = %s\n", k, lit)})
+		case 17:
+			// redundant syntax a formatter removes or regularises: parentheses, semicolons, empty statements, spacing in composite literals
+			items = append(items, PItem{K: "block", S: Pick(r, []string{
+				fmt.Sprintf("func P%d(x int) int { if (x > 0) { return (x) }; ; return ((x + 1)) }\n", k),
+				fmt.Sprintf("var L%d = []int{1,2,\n3 ,4,\n}\n", k),
+				fmt.Sprintf("var M%d = map[string][]int{ \"a\":{1}, \"bb\" : { 2,3 } ,\n}\n", k),
+				fmt.Sprintf("func Q%d() { for ;; { break } ; for i:=0;i<2;i++ {}; var _ = func ( ) { } }\n", k),
+				fmt.Sprintf("type G%d[T any,U comparable] struct{ a T;b U }\n\nfunc (g *G%d[T,U]) Get( ) T { return g.a }\n", k, k),
+				fmt.Sprintf("func R%d() string { return `raw\n\ttext  ` + \"a\\tb\" }\n", k),
+				fmt.Sprintf("func S%d(x interface{}) { switch x.(type) { case int : ; case string,bool: } ; L: for { break L } }\n", k),
+			})})
+		case 18:
+			// comments in places where the printer has to decide
+			items = append(items, PItem{K: "block", S: Pick(r, []string{
+				fmt.Sprintf("func C%d( /* a */ x int /* b */ ) /* c */ int { /* d */ return x /* e */ } // f\n", k),
+				fmt.Sprintf("type E%d struct { // open\n\tA int\n\n\n\t// lonely\n\n\tB int /* tail */\n} // close\n", k),
+				fmt.Sprintf("var (\n// head\nY%d = 1\n\n\n// next\nZ%d = 2 //t\n)\n", k, k),
+				fmt.Sprintf("//nolint:all\n//  double  space\n//\tTabbed\nfunc D%d() {}\n", k),
+			})})
+		case 19:
+			ref := Pick(r, c01Refs)
+			path := strings.ReplaceAll(strings.ReplaceAll(ref.path, "{mod}", mod), "{self}", self)
+			items = append(items, PItem{K: "ref", S: fmt.Sprintf("type U%d struct {\n\tF   []*@ref `json:\"f\"`\n\tGGGG map[string]@ref\n}\n", k), Path: path, Name: ref.name})
 		case 15:
 			if r.Chance(15) {
 				items = append(items, PItem{K: "block", S: "//go:build linux\n\n"}) // known-finding territory (F18)
